@@ -136,6 +136,12 @@ func Slices(cols ...interface{}) Frame {
 		}
 		f.data[i] = newData(v)
 	}
+	// Views of the frame may extend up to its capacity (Slice, Grow), so
+	// the columns and their operators must cover all of it, whatever
+	// length the slices were handed over with.
+	for i := range f.data {
+		f.data[i] = newData(f.data[i].val.Slice(0, f.cap))
+	}
 	return f
 }
 
@@ -160,6 +166,12 @@ func Values(cols []reflect.Value) Frame {
 			f.cap = cap
 		}
 		f.data[i] = newData(v)
+	}
+	// Views of the frame may extend up to its capacity (Slice, Grow), so
+	// the columns and their operators must cover all of it, whatever
+	// length the slices were handed over with.
+	for i := range f.data {
+		f.data[i] = newData(f.data[i].val.Slice(0, f.cap))
 	}
 	return f
 }
